@@ -29,17 +29,23 @@ def main():
   demo = os.path.join(work, "demo.py")
   assert os.path.exists(patch) and os.path.exists(demo), "missing patch/demo"
   ran = []
-  # state: change applied in worktree
-  rc, out = sh("git diff --stat", wt)
-  assert out.strip(), "worktree has no change"
-  rc_with, out_with = sh("timeout 120 /venv/bin/python %s %s" % (demo, wt))
-  npass_with, tline_with = tests(wt)
-  sh("git stash", wt)
+  # confirm in a fresh scratch worktree of /repo's HEAD (never touching the
+  # sub-agent's worktree; note that `git stash` is shared between worktrees)
+  scratch = "/tmp/intake_%s" % name
+  sh("git -C /repo worktree remove --force %s" % scratch)
+  rc, out = sh("git -C /repo worktree add -q --detach %s HEAD" % scratch)
+  assert rc == 0, out
   try:
-    rc_without, out_without = sh("timeout 120 /venv/bin/python %s %s" % (demo, wt))
-    npass_without, tline_without = tests(wt)
+    rc_without, out_without = sh("timeout 120 /venv/bin/python %s %s"
+                                 % (demo, scratch))
+    npass_without, tline_without = tests(scratch)
+    rc, out = sh("git apply %s" % patch, scratch)
+    assert rc == 0, "patch does not apply to /repo HEAD: " + out
+    rc_with, out_with = sh("timeout 120 /venv/bin/python %s %s"
+                           % (demo, scratch))
+    npass_with, tline_with = tests(scratch)
   finally:
-    sh("git stash pop", wt)
+    sh("git -C /repo worktree remove --force %s" % scratch)
   print("demo with change: rc=%s; without: rc=%s" % (rc_with, rc_without))
   print("tests with change: %s; without: %s" % (tline_with, tline_without))
   ok = (rc_with == 1 and rc_without == 0 and npass_with == npass_without == 46)
@@ -56,8 +62,8 @@ def main():
                         "tests_passed_with_change": npass_with,
                         "tests_passed_without_change": npass_without,
                         "demo_output_with_change": out_with.strip()[-600:]},
-          "ran": ["timeout 120 /venv/bin/python demo.py <worktree> (with and "
-                  "without the change, via git stash)",
+          "ran": ["timeout 120 /venv/bin/python demo.py <worktree> (fresh worktree of /repo HEAD, "
+                  "without and with patch.diff applied)",
                   "pytest baseline command in the worktree, with and without",
                   "./check mutants --seeded --id %s" % name]}
   with open(os.path.join(dst, "meta.json"), "w") as f:
